@@ -66,11 +66,37 @@ pub fn sub1_ascii_agree<const H: usize, const K: u8>() {
 
 // ----------------------------------------------------------------------------------------------
 // multi-character needle, ASCII      (call-site precondition: 2 <= N < H)
+//
+// ARM partitions the inputs by the code path they take (the four cases together cover every
+// (needle, ignore_case)); one obligation per case keeps each query small:
+//   0: ignore_case off                       1: ignore_case on, needle[0] is a letter
+//   2: ignore_case on, needle[0] is not a letter, needle[1] is
+//   3: ignore_case on, neither needle[0] nor needle[1] is a letter
 // ----------------------------------------------------------------------------------------------
+fn is_lower(b: u8) -> bool {
+    b >= b'a' && b <= b'z'
+}
+
+fn arm_inputs<const H: usize, const N: usize, const K: u8, const ARM: u8>() -> In<H, N> {
+    let hay: [u8; H] = kani::any();
+    let needle: [u8; N] = kani::any();
+    kani::assume(all_ascii(&hay));
+    let (mut cfg, kind) = base_config(K);
+    cfg.normalize = kani::any();
+    cfg.ignore_case = ARM != 0;
+    kani::assume(needle_normalized_ascii(&needle, &cfg));
+    match ARM {
+        0 => {}
+        1 => kani::assume(is_lower(needle[0])),
+        2 => kani::assume(!is_lower(needle[0]) && is_lower(needle[1])),
+        _ => kani::assume(!is_lower(needle[0]) && !is_lower(needle[1])),
+    }
+    In { hay, needle, cfg, kind }
+}
 
 /// decision: Some <=> the needle occurs contiguously in the normalised haystack
-pub fn sub_ascii_decision<const H: usize, const N: usize, const K: u8>() {
-    let i = inputs::<H, N, K>();
+pub fn sub_ascii_decision<const H: usize, const N: usize, const K: u8, const ARM: u8>() {
+    let i = arm_inputs::<H, N, K, ARM>();
     let mut m = small_matcher(i.cfg.clone(), 8);
     let r = m.substring_match_ascii::<false>(&i.hay, &i.needle, &mut Vec::new());
     let best = spec_best_occurrence(ascii(&i.hay), ascii(&i.needle), &i.cfg, i.kind);
@@ -80,8 +106,8 @@ pub fn sub_ascii_decision<const H: usize, const N: usize, const K: u8>() {
 }
 
 /// position, witness, score
-pub fn sub_ascii_witness<const H: usize, const N: usize, const K: u8>() {
-    let i = inputs::<H, N, K>();
+pub fn sub_ascii_witness<const H: usize, const N: usize, const K: u8, const ARM: u8>() {
+    let i = arm_inputs::<H, N, K, ARM>();
     let mut m = small_matcher(i.cfg.clone(), 8);
     let p0: u32 = kani::any();
     let mut idx = Vec::with_capacity(N + 2);
@@ -111,8 +137,8 @@ pub fn sub_ascii_witness<const H: usize, const N: usize, const K: u8>() {
     std::mem::forget(m);
 }
 
-pub fn sub_ascii_agree<const H: usize, const N: usize, const K: u8>() {
-    let i = inputs::<H, N, K>();
+pub fn sub_ascii_agree<const H: usize, const N: usize, const K: u8, const ARM: u8>() {
+    let i = arm_inputs::<H, N, K, ARM>();
     let mut m = small_matcher(i.cfg.clone(), 8);
     let mut idx = Vec::with_capacity(N + 2);
     let r = m.substring_match_ascii::<true>(&i.hay, &i.needle, &mut idx);
